@@ -47,6 +47,11 @@ def q(x):
     return f"(Qmake {z(fr.numerator)} {int(fr.denominator)}%positive)"
 
 
+def qc(x):
+    """Rational literal for Qc (canonical rationals)."""
+    return f"(Q2Qc {q(x)})"
+
+
 def err(cls):
     return f"(Err {cls})"
 
